@@ -77,6 +77,8 @@ type world struct {
 	mayRunForever bool
 	crashArmed    bool
 	crashed       bool
+	cancelFn      func()
+	cancelFired   bool
 	startMode     int
 	// handler stubs
 	openOutcome func(path string) int
@@ -108,6 +110,16 @@ func (w *world) maybeCrash(ep *endpoint) {
 	}
 }
 
+// maybeCancel: C11 - the caller's context may be cancelled at any transport event of either
+// side (this places the cancellation instant without spending the schedule budget).
+func (w *world) maybeCancel() {
+	if w.cancelFn != nil && !w.cancelFired && sym.Bool("cancel_here") {
+		w.cancelFired = true
+		sym.Reach("cancel-injected")
+		w.cancelFn()
+	}
+}
+
 const pidControllerModel = 1000
 
 func (w *world) maybeBreak() {
@@ -123,6 +135,7 @@ func modelSend(s *socket, e any, msg unixsocket.Msg) error {
 	ep := w.ep(s)
 	sym.Yield()
 	w.maybeCrash(ep)
+	w.maybeCancel()
 	w.maybeBreak()
 	if ep.l.broken || ep.l.closed[ep.side] {
 		return errBroken
@@ -184,6 +197,7 @@ func modelRecv(s *socket, e any) (unixsocket.Msg, error) {
 		w.lastReplySeq = p.seq
 	}
 	w.maybeCrash(ep)
+	w.maybeCancel()
 	msg.Cred = p.cred
 	for _, f := range p.files {
 		ep.next++
